@@ -269,10 +269,9 @@ func Eval(g *gspec.Grammar, input []byte, opt Options) (res *Result) {
 	return res
 }
 
+// failPos: the farthest failure offset (0 when no terminal failed at all) with that
+// offset's line and column.
 func (it *interp) failPos() Pos {
-	if len(it.failSet) == 0 && it.failOff == 0 {
-		return Pos{1, 1, 0}
-	}
 	return it.pos[it.failOff]
 }
 
